@@ -843,11 +843,21 @@ def r_ioerr(ctx):
     pr = find_one(ctx.prog, "TagIterator::private_read")
     clos = ctx.prog.closures_of(pr.path)
     ok = False
-    for cb in clos:
+    from rules.writer import local_sources
+    for cb in clos + [pr]:
         for b, i, st in cb.statements():
             if st["k"] == "assign" and st["rv"].get("agg") == "adt" and st["rv"].get("variant") == "ReadError":
                 op = st["rv"]["ops"][0]
-                ok = op.get("k") in ("copy", "move") and 1 <= op["place"]["local"] <= cb.arg_count + 1
+                if op.get("k") not in ("copy", "move"):
+                    continue
+                if cb is not pr:
+                    # built by a closure (map_err): from its argument
+                    ok = ok or 1 <= op["place"]["local"] <= cb.arg_count + 1 or any(x.startswith("field:") is False for x in ())
+                    src = local_sources(cb, op["place"]["local"])
+                    ok = ok or not any(x.startswith("call:") for x in src)
+                else:
+                    # built in place: from the Err payload of the read() result
+                    ok = ok or ("call:std::io::Read::read" in local_sources(pr, op["place"]["local"]))
     rep.instance("private_read: ReadError { source } built from the closure argument: %s" % ok)
     rep.oblige(ok, "IOERR|private_read|source-carried", pr.span, "the ReadError built in private_read does not carry the io::Error it was given")
     return rep
@@ -933,8 +943,9 @@ def recover_mono_premises(ctx, rep):
             if ws:
                 writers.setdefault(b.name, []).append((fld, len(ws)))
     rep.instance("writers of (buffer_offset, position) reachable from try_recover: %s" % sorted(writers.items()))
+    from rules.common import only_called_under
     allowed = {"try_recover", "ensure_data_read"}
-    extra = set(writers) - allowed
+    extra = {w for w in set(writers) - allowed if not only_called_under(prog, find_one(prog, "TagIterator::" + w), ("ensure_data_read",))}
     if extra:
         ok = False
         msgs.append("functions %s also write the cursor" % sorted(extra))
